@@ -246,3 +246,18 @@ Example C16_gen_example :
 Proof. vm_compute. first [exact I | reflexivity]. Qed.
 
 End GenAgreeMeasures_C16.
+
+(* ---- WIRING-APPENDIX:BEGIN (generated by tools/gen_wiring_props.py; do not edit) ---- *)
+From CC Require Proofs.GenAgreeWiring_C16.
+Section Wiring_C16.
+Import Coq.Lists.List Coq.ZArith.ZArith Coq.Strings.String CC.Base.WiringExp CC.Gen.WiringSrc.
+Import ListNotations.
+Local Open Scope string_scope.
+
+Theorem C16_wiring_Slice_column_index :
+  wsrc_Slice_column_index = Some (w_matrix_of "column_index").
+Proof. exact Proofs.GenAgreeWiring_C16.gen_wiring_Slice_column_index. Qed.
+Print Assumptions C16_wiring_Slice_column_index.
+
+End Wiring_C16.
+(* ---- WIRING-APPENDIX:END ---- *)
